@@ -11,6 +11,11 @@ use std::time::Duration;
 use verif_harness::common::*;
 
 fn run_behaviour(input: &Value) -> Value {
+    if input["kind"].as_str() == Some("config") {
+        // Config::new() [+ one setter], read back through Debug
+        let cfg = config_after_set(input["field"].as_str().unwrap_or("none"), &input["value"]);
+        return config_fields(&cfg);
+    }
     let rt = runtime();
     rt.block_on(async {
         let mut drv = Driver::new(&input["cfg"]);
